@@ -29,8 +29,13 @@ def run_variant(pid, n, workers, hashseed, seed, tier):
         p = subprocess.run([PY, "-m", "vsim.check", pid, "--tier", tier, "--runs", str(n), "--workers", str(workers),
                             "--no-build", "--no-evidence", "--dump-digests", path, "--max-classes", "0"],
                            cwd=HERE, env=env, stdout=subprocess.PIPE, stderr=subprocess.STDOUT, text=True)
-        with open(path) as f:
-            data = json.load(f)
+        try:
+            with open(path) as f:
+                data = json.load(f)
+        except Exception:
+            print("SELFTEST: check %s (workers=%d, PYTHONHASHSEED=%s) produced no digests; exit %d; output:\n%s" % (
+                pid, workers, hashseed, p.returncode, p.stdout[-3000:]))
+            data = {"digests": [], "violations": [], "harness": -1, "failed": True}
         return data, p.stdout
     finally:
         try:
@@ -48,6 +53,8 @@ def determinism(pids, n, seed, tier="quick"):
             data, out = run_variant(pid, n, w, hs, seed, tier)
             results.append(data)
         base = results[0]
+        if any(r.get("failed") for r in results) or not base["digests"]:
+            ok = False
         for (w, hs), r in zip(variants[1:], results[1:]):
             if r != base:
                 ok = False
